@@ -98,6 +98,9 @@ def _values(family):
                 edge_routing_info=b"\x08\x02\x08\x05", chat_dns_domain="fb")
     if family == "unicode":
         base.update(pushname=u"Jürgen ☃ \U0001F600 \"quoted\" \\ back/slash", chat_dns_domain=u"dömain", fdid=u"äöü")
+    if family == "surrogate":
+        # a lone surrogate is an ordinary Python str value and representable in JSON (escaped): "arbitrary unicode"
+        base.update(pushname=u"Ann \ud83d", fdid=u"\udc00x")
     if family == "zeros":
         base.update(id=bytes(20), expid=bytes(16), edge_routing_info=b"\x00", server_static_public=PublicKey(bytes(32)), mcc="000", mnc="000", pushname="0")
     return base
@@ -163,15 +166,38 @@ def h_roundtrip(ctx, nrandom):
     with _Env() as env:
         fmt = ctx.choice("format", ["json", "keyval"])
         how = ctx.choice("load_by", ["path-with-extension", "path-without-extension", "profile-name", "fresh-profile-name"])
-        family = ctx.choice("values", ["plain", "unicode", "zeros"])
+        family = ctx.choice("values", ["plain", "unicode", "zeros", "surrogate"])
+        locale_enc = ctx.choice("locale_encoding", ["utf-8", "ascii"])
         name, subset = _subset(ctx, nrandom)
-        if fmt == "keyval" and family == "unicode":
+        if fmt == "keyval" and family in ("unicode", "surrogate"):
             return []              # arbitrary unicode is quantified for JSON only
+        if locale_enc == "ascii" and name not in ("all", "only-phone", "phone+pushname", "without-pushname"):
+            return []              # the locale dimension is explored on the representative subsets only
         vals = {k: v for k, v in _values(family).items() if k in subset}
         cfg = Config(**vals)
         cm = ConfigManager()
         st = ConfigManager.TYPE_JSON if fmt == "json" else ConfigManager.TYPE_KEYVAL
-        ctx.note("format=%s load_by=%s values=%s subset=%s" % (fmt, how, family, name))
+        ctx.note("format=%s load_by=%s values=%s subset=%s locale=%s" % (fmt, how, family, name, locale_enc))
+        import yowsup.common.tools as tools_
+        import yowsup.config.manager as manager_
+
+        def locale_open(path, mode="r", *a, **k):
+            # text files opened without an explicit encoding use the locale's: here a process running under LC_ALL=C
+            if "b" not in mode and "encoding" not in k and len(a) < 2:
+                k["encoding"] = locale_enc
+            return open(path, mode, *a, **k)
+        tools_.open = manager_.open = locale_open
+        try:
+            return _roundtrip_body(ctx, env, cm, cfg, st, fmt, how)
+        finally:
+            del tools_.open
+            del manager_.open
+
+
+def _roundtrip_body(ctx, env, cm, cfg, st, fmt, how):
+    from yowsup.config.manager import ConfigManager
+    from yowsup.config.v1.config import Config
+    if True:
         if how in ("profile-name", "fresh-profile-name"):
             if fmt != "json":
                 return []          # profiles are stored as config.json
@@ -195,12 +221,14 @@ class Crash(BaseException):
 
 
 class CrashFS(object):
-    """wraps the builtin open() seen by yowsup.common.tools / yowsup.config.manager: a crash can be injected at a write
-    boundary; a write that crashes persists only a prefix"""
+    """wraps the builtin open() / os.fdopen() seen by yowsup.common.tools and yowsup.config.manager.  What a program writes sits in a
+    user-space buffer until the file is flushed or closed; when the process dies, of the data still buffered only a prefix (the solver's
+    choice, possibly nothing, possibly everything) has reached the file.  Every open-for-write, write, close, rename is a crash boundary."""
 
     def __init__(self, crash_at, prefix_frac):
         self.crash_at, self.prefix_frac, self.n = crash_at, prefix_frac, 0
         self.log = []
+        self.open_files = []
 
     def boundary(self, what):
         self.log.append(what)
@@ -208,41 +236,78 @@ class CrashFS(object):
         self.n += 1
         return self.crash_at is not None and k == self.crash_at
 
+    def die(self):
+        """the process dies now: every open file keeps a prefix of what was still buffered"""
+        for F in list(self.open_files):
+            F._persist_prefix()
+        self.open_files = []
+        raise Crash()
+
     def open(self, path, mode="r", *a, **k):
         fs = self
         if "w" in mode or "a" in mode or "+" in mode:
             if fs.boundary("open-for-write %s" % os.path.basename(path)):
-                raise Crash()
+                fs.die()
             return fs.wrap(open(path, mode, *a, **k))
         return open(path, mode, *a, **k)
 
     def wrap(self, f):
         fs = self
-        if True:
-            class F(object):
-                def write(self_, data):
-                    if fs.boundary("write %d" % len(data)):
-                        n = int(len(data) * fs.prefix_frac)
-                        f.write(data[:n])
-                        f.flush()
-                        f.close()
-                        raise Crash()
-                    return f.write(data)
 
-                def __enter__(self_):
-                    return self_
+        class F(object):
+            def __init__(self_):
+                self_.pending = []
 
-                def __exit__(self_, et, ev, tb):
-                    if et is None and fs.boundary("close"):
-                        f.flush()
-                        f.close()
-                        raise Crash()
+            def _persist_prefix(self_):
+                data = self_.pending[0][:0].join(self_.pending) if self_.pending else None
+                if data:
+                    f.write(data[:int(len(data) * fs.prefix_frac)])
+                self_.pending = []
+                try:
+                    f.flush()
                     f.close()
-                    return False
+                except Exception:
+                    pass
 
-                def __getattr__(self_, n):
-                    return getattr(f, n)
-            return F()
+            def write(self_, data):
+                if fs.boundary("write %d" % len(data)):
+                    self_.pending.append(data)
+                    fs.die()
+                self_.pending.append(data)
+                return len(data)
+
+            def flush(self_):
+                for d in self_.pending:
+                    f.write(d)
+                self_.pending = []
+                f.flush()
+
+            def close(self_):
+                if fs.boundary("close"):
+                    fs.die()
+                self_.flush()
+                f.close()
+                if self_ in fs.open_files:
+                    fs.open_files.remove(self_)
+
+            def __enter__(self_):
+                return self_
+
+            def __exit__(self_, et, ev, tb):
+                if et is None:
+                    self_.close()
+                else:
+                    try:
+                        f.close()
+                    except Exception:
+                        pass
+                return False
+
+            def __getattr__(self_, n):
+                return getattr(f, n)
+        F_ = F()
+        fs.open_files.append(F_)
+        return F_
 
 
 class OsProxy(object):
@@ -253,18 +318,18 @@ class OsProxy(object):
 
     def replace(self, a, b):
         if self._fs.boundary("replace"):
-            raise Crash()
+            self._fs.die()
         return os.replace(a, b)
 
     def rename(self, a, b):
         if self._fs.boundary("rename"):
-            raise Crash()
+            self._fs.die()
         return os.rename(a, b)
 
     def open(self, path, flags, *a, **k):
         if flags & (os.O_WRONLY | os.O_RDWR):
             if self._fs.boundary("os.open-for-write %s" % os.path.basename(path)):
-                raise Crash()
+                self._fs.die()
         return os.open(path, flags, *a, **k)
 
     def fdopen(self, fd, mode="r", *a, **k):
